@@ -37,6 +37,7 @@ func main() {
 		count    = fs.Int("count", 1, "how many pool entries (solo: each still needs its own process unless -count>1 is explicitly asked for)")
 		npool    = fs.Int("n", 200, "pool size (genpool)")
 		family   = fs.String("family", "", "force one schedule family (conc)")
+		firstuse = fs.Int("firstuse", -1, "conc: >= 0 makes the first episode of this process a first-use twin episode (all clients call one kind of function for the first time in the process, simultaneously)")
 		dumpep   = fs.Bool("dumpep", false, "conc: print episode -from as a self-contained replay episode and exit")
 		eidx     = fs.Int("eidx", 0, "enumeration share index")
 		en       = fs.Int("en", 1, "enumeration share count")
@@ -56,7 +57,7 @@ func main() {
 		os.Exit(soloMain(*pool, *index, *count))
 	case "conc":
 		os.Exit(concMain(concArgs{config: *config, seed: *seed, worker: *worker, pool: *pool, ref: *refFile, from: *from, to: *to,
-			dur: *dur, caseFile: *caseFile, trace: *trace, family: *family, dumpep: *dumpep}))
+			dur: *dur, caseFile: *caseFile, trace: *trace, family: *family, dumpep: *dumpep, firstuse: *firstuse}))
 	case "canary":
 		os.Exit(canaryMain(*prop == "locked"))
 	default:
